@@ -149,3 +149,54 @@ structure Fair2 (c : Cfg) (d2 : List Msg) : Prop where
   honest  : ∀ m ∈ d2, isMember c m.sender = true → m = genCast2 c m.sender
 
 end CharonV.FrostP2P
+
+/-!
+### Overlapping invocations of the bcast callback
+
+Several deliveries may be inside the callback at once. What the code's mutex guarantees is modelled
+as two steps per invocation: `enter` — the duplicate check **and** the marking of the sender, one
+atomic step — and later `handover` — validation and the channel send. Steps of different
+invocations interleave arbitrarily. (The real code holds the lock over both steps, which is one of
+these interleavings.) `cstepLate` is the variant that only *checks* at `enter` and marks at
+`handover`: it is what the theorem `overlapping_no_duplicate_sender` excludes (see the example).
+-/
+namespace CharonV.FrostP2P
+
+inductive CEv where
+  | enter (m : Msg)
+  | handover (m : Msg)
+  deriving Repr
+
+structure CState where
+  seen   : List Nat := []
+  inside : List Msg := []   -- invocations that passed the duplicate check and have not handed over
+  queue  : List Msg := []
+  deriving Repr
+
+def cstep (c : Cfg) (commits : Option Nat) (s : CState) : CEv → CState
+  | .enter m =>
+    if m.sender ∈ s.seen then s
+    else { s with seen := m.sender :: s.seen, inside := m :: s.inside }
+  | .handover m =>
+    if m ∈ s.inside then
+      let s' := { s with inside := s.inside.erase m }
+      if isMember c m.sender && (firstErr c m.sender 0 commits m.entries).isNone then
+        { s' with queue := s'.queue ++ [m] }
+      else s'
+    else s
+
+def crun (c : Cfg) (commits : Option Nat) (s : CState) (evs : List CEv) : CState :=
+  evs.foldl (cstep c commits) s
+
+/-- check at `enter`, mark only at `handover` (not what the code does). -/
+def cstepLate (c : Cfg) (commits : Option Nat) (s : CState) : CEv → CState
+  | .enter m => if m.sender ∈ s.seen then s else { s with inside := m :: s.inside }
+  | .handover m =>
+    if m ∈ s.inside then
+      let s' := { s with inside := s.inside.erase m }
+      if isMember c m.sender && (firstErr c m.sender 0 commits m.entries).isNone then
+        { s' with queue := s'.queue ++ [m], seen := m.sender :: s'.seen }
+      else s'
+    else s
+
+end CharonV.FrostP2P
